@@ -31,13 +31,21 @@ FAMILY = [
     T([], "bool", note="no params"),
     T(["i32", "&mut i32"], "Option<bool>", note="return wrapper"),
     T(["i32", "*const i32"], "bool", note="*const"),
+    # distinct types that share their last path segment (v1::Config / v2::Config, io::Error / fmt::Error)
+    T(["ns1::Tok"], "bool", note="same type name, module ns1"),
+    T(["ns2::Tok"], "bool", note="same type name, module ns2"),
+    T([], "ns1::Tok", note="return: same type name, module ns1"),
+    T([], "ns2::Tok", note="return: same type name, module ns2"),
+    T(["&std::io::Error"], "bool", note="io::Error"),
+    T(["&std::fmt::Error"], "bool", note="fmt::Error"),
     T(["&'static str"], "bool", judged=False, note="lifetime spelling 'static"),
     T(["&str"], "bool", judged=False, note="lifetime spelling elided"),
 ]
 
-DEFAULTS = {"bool": "false", "u8": "0", "()": "()", "i32": "0", "Option<bool>": "None"}
-FAKE_RET = {"bool": "true", "u8": "1", "()": "()", "i32": "1", "Option<bool>": "Some(true)"}
-ARGS = {"i32": "1", "&mut i32": "&mut m", "u8": "2", "i64": "3", "&i32": "&r", "*mut i32": "&mut m as *mut i32", "u32": "4",
+DEFAULTS = {"ns1::Tok": "ns1::Tok(0)", "ns2::Tok": "ns2::Tok(0)", "bool": "false", "u8": "0", "()": "()", "i32": "0", "Option<bool>": "None"}
+FAKE_RET = {"ns1::Tok": "ns1::Tok(1)", "ns2::Tok": "ns2::Tok(1)", "bool": "true", "u8": "1", "()": "()", "i32": "1", "Option<bool>": "Some(true)"}
+ARGS = {"ns1::Tok": "ns1::Tok(5)", "ns2::Tok": "ns2::Tok(5)", "&std::io::Error": "&std::io::Error::from_raw_os_error(1)",
+        "&std::fmt::Error": "&std::fmt::Error", "i32": "1", "&mut i32": "&mut m", "u8": "2", "i64": "3", "&i32": "&r", "*mut i32": "&mut m as *mut i32", "u32": "4",
         "&mut i64": "&mut m64", "*const i32": "&r as *const i32", "&'static str": "\"s\"", "&str": "\"s\""}
 
 
@@ -80,6 +88,7 @@ def rust():
     o.append("// GENERATED by tools/sigfam.py -- do not edit.  One target and one fake per member of the\n// signature family (C09) and one target per return type of the boolean-gate family (C10).")
     o.append("#![allow(unused_variables, unused_mut, dead_code, clippy::all, improper_ctypes_definitions)]")
     o.append("use injectorpp::interface::injector::*;\nuse std::sync::atomic::{AtomicU32, Ordering::SeqCst};\npub static MARK: AtomicU32 = AtomicU32::new(0);")
+    o.append("pub mod ns1 { #[derive(Clone, Copy)] pub struct Tok(pub u8); }\npub mod ns2 { #[derive(Clone, Copy)] pub struct Tok(pub u8); }")
     o.append("pub const NFAM: usize = %d;" % len(FAMILY))
     for k, t in enumerate(FAMILY):
         q = ("unsafe " if t["unsafe"] else "") + ("extern \"%s\" " % t["abi"] if t["abi"] != "Rust" else "")
